@@ -21,13 +21,16 @@ pub struct RawCfg {
     /// instance angles drawn from right angles only
     pub right_angles_only: bool,
     pub inst_names: bool,
+    /// layer sets as real technologies have them: distinct layers sharing a GDSII layer number, purposes carried by several
+    /// numbers, and numbers re-assigned from one purpose to another (used where only determinism is judged)
+    pub hostile_layers: bool,
 }
 impl RawCfg {
     pub fn gds() -> Self {
-        RawCfg { units: vec![Units::Micro, Units::Nano, Units::Angstrom, Units::Pico], abstracts: false, annotations: false, nets: true, general_polygons: true, paths: true, max_cells: 6, max_elems: 8, right_angles_only: true, inst_names: false }
+        RawCfg { units: vec![Units::Micro, Units::Nano, Units::Angstrom, Units::Pico], abstracts: false, annotations: false, nets: true, general_polygons: true, paths: true, max_cells: 6, max_elems: 8, right_angles_only: true, inst_names: false, hostile_layers: false }
     }
     pub fn proto() -> Self {
-        RawCfg { units: vec![Units::Micro, Units::Nano, Units::Angstrom], abstracts: true, annotations: true, nets: true, general_polygons: true, paths: true, max_cells: 6, max_elems: 8, right_angles_only: true, inst_names: true }
+        RawCfg { units: vec![Units::Micro, Units::Nano, Units::Angstrom], abstracts: true, annotations: true, nets: true, general_polygons: true, paths: true, max_cells: 6, max_elems: 8, right_angles_only: true, inst_names: true, hostile_layers: false }
     }
 }
 
@@ -42,13 +45,19 @@ pub struct LayerDefs {
 }
 
 pub fn rand_layers(rng: &mut Rng) -> LayerDefs {
+    rand_layers_cfg(rng, false)
+}
+pub fn rand_layers_cfg(rng: &mut Rng, hostile: bool) -> LayerDefs {
     let mut layers = Layers::default();
     let mut table = Vec::new();
-    let n = 1 + rng.usize(4);
+    let n = if hostile { 2 + rng.usize(4) } else { 1 + rng.usize(4) };
     let mut nums: Vec<i16> = Vec::new();
     while nums.len() < n {
         let k = rng.range(0, 200) as i16;
-        if !nums.contains(&k) {
+        if hostile && !nums.is_empty() && rng.chance(2, 3) {
+            let again = *rng.pick(&nums);
+            nums.push(again); // another layer on the same GDSII layer number (as met1 / via share 68 in the crate's own test set)
+        } else if !nums.contains(&k) {
             nums.push(k);
         }
     }
@@ -62,7 +71,7 @@ pub fn rand_layers(rng: &mut Rng) -> LayerDefs {
                 pn.push(k);
             }
         }
-        let pairs = vec![
+        let mut pairs = vec![
             (pn[0], LayerPurpose::Drawing),
             (pn[1], LayerPurpose::Pin),
             (pn[2], LayerPurpose::Label),
@@ -71,7 +80,23 @@ pub fn rand_layers(rng: &mut Rng) -> LayerDefs {
             (pn[5], LayerPurpose::Named(format!("purp{}", i), pn[5])),
             (pn[6], LayerPurpose::Other(pn[6])),
         ];
+        let base = pairs.clone();
+        if hostile {
+            // a second number for some purposes, then numbers re-assigned to another purpose
+            let mut free: Vec<i16> = (60..70).collect();
+            rng.shuffle(&mut free);
+            for k in 0..rng.usize(3) {
+                let p = rng.pick(&[LayerPurpose::Drawing, LayerPurpose::Pin, LayerPurpose::Obstruction]).clone();
+                pairs.push((free[k], p));
+            }
+            for _ in 0..rng.usize(3) {
+                let from = rng.pick(&pairs).0;
+                let to = rng.pick(&[LayerPurpose::Drawing, LayerPurpose::Pin, LayerPurpose::Label, LayerPurpose::Obstruction]).clone();
+                pairs.push((from, to));
+            }
+        }
         let layer = Layer::new(*num, name).add_pairs(&pairs).expect("layer pairs");
+        let pairs = base;
         let key = layers.add(layer);
         let usable: Vec<(LayerPurpose, i16)> = pairs.iter().filter(|(_, p)| *p != LayerPurpose::Label).map(|(n, p)| (p.clone(), *n)).collect();
         table.push((key, *num, usable));
@@ -152,7 +177,7 @@ pub struct GenRaw {
 }
 
 pub fn rand_raw_lib(rng: &mut Rng, cfg: &RawCfg) -> GenRaw {
-    let defs = rand_layers(rng);
+    let defs = rand_layers_cfg(rng, cfg.hostile_layers);
     let ncells = 1 + rng.usize(cfg.max_cells);
     let mut cells: Vec<Ptr<Cell>> = Vec::new();
     let mut deps = Vec::new();
